@@ -37,7 +37,7 @@ def factorize_arrow_arr(
         arr = arr.combine_chunks()
 
     # a null key gets the null code -1 (to_numpy would turn the codes into floats with NaN)
-    codes = arr.indices.fill_null(-1).to_numpy(zero_copy_only=False)
+    codes = arr.indices.cast(pa.int64()).fill_null(-1).to_numpy(zero_copy_only=False)
     labels = pd.Index(arr.dictionary.to_pandas(types_mapper=pd.ArrowDtype), name=name)
 
     return codes, labels
